@@ -75,20 +75,42 @@ def classify(case, clause):
     return "astar:%s" % clause
 
 
+# (barrier list as the caller passes it, values placed on non-crossable cells, values of crossable cells).
+# Lists of 0-4 values in ascending, descending and shuffled order, duplicates, values that never occur in the
+# surface, negative and fractional values; walls whose value is smaller than an EARLIER entry of the list.
+PALETTES = [
+    ([0, 9], [0, 9], [1, 2, 3, 4]),
+    ([5, 1], [1, 5], [2, 3, 4, 6, 0]),
+    ([7, -2, 3.5], [-2, 3.5, 7], [0, 1, 5, 2.25, 9, -1]),
+    ([4, 4, 1], [1, 4], [2, 3, 5, 0]),
+    ([8, 100, 2, -50], [2, 8], [3, 4, 5, 0, 9]),
+    ([2.5, 1.5, 6], [1.5, 6, 2.5], [1, 2, 3, 7]),
+    ([3], [3], [1, 2, 4]),
+    ([], [], [1, 2, 3]),
+    ([9, 6, 3, 1], [1, 3, 6, 9], [0, 2, 4, 5, 7, 8]),
+    ([1, 9, 5], [5, 1, 9], [0, 2, 3, 4, 6, 7, 8]),
+]
+
+
 def realise(cross, H, W, style):
-    """surface values for a crossable mask: non-crossable cells become NaN or one of two barrier values."""
+    """surface values for a crossable mask.  style >= 0: palette style % 10, every third non-crossable cell
+    (phase style // 10) is NaN instead of a barrier value; style < 0: palette (-style - 1) % 10, no NaN cells
+    (unless the barrier list is empty).  Crossable cells carry several distinct non-barrier values."""
+    pal, phase, nan_ok = (style % 10, (style // 10) % 3, True) if style >= 0 else ((-style - 1) % 10, 0, False)
+    barriers, placed, free = PALETTES[pal]
     vals = []
     for r in range(H):
         row = []
         for c in range(W):
             i = r * W + c
             if cross[r][c]:
-                row.append(1 + (i % 4))
+                row.append(free[(i * 3 + phase) % len(free)])
+            elif not placed or (nan_ok and (i + phase) % 3 == 0):
+                row.append("nan")
             else:
-                k = (i + style) % 3 if style >= 0 else 1
-                row.append("nan" if k == 0 else (0 if k == 1 else 9))
+                row.append(placed[(i * 7 + phase) % len(placed)])
         vals.append(row)
-    return vals, [0, 9]
+    return vals, list(barriers)
 
 
 def mkjob(H, W, cross, conn, yax, xax, sp, gp, snapS=0, snapG=0, events=False, tag="", style=0, dtype=None):
@@ -112,12 +134,12 @@ def layout_jobs(H, W, conns, events=False, snap=0, tag="", desc=False, descx=Fal
     jobs = []
     for bits in itertools.product([0, 1], repeat=H * W):
         cross = [list(bits[r * W:(r + 1) * W]) for r in range(H)]
-        style = sum(bits) % 3
         for s in range(H * W):
             for g in range(H * W):
                 for conn in conns:
                     if of > 1 and pick.randrange(of) >= keep:
                         continue
+                    style = pick.randrange(30)
                     jobs.append(mkjob(H, W, cross, conn, yax, xax,
                                       (centre(yax, s // W), centre(xax, s % W)),
                                       (centre(yax, g // W), centre(xax, g % W)),
@@ -196,7 +218,92 @@ def maze_jobs(rng, n, sizes, events=False, f32=True):
         if not f32:
             dtype = None
         jobs.append(mkjob(H, W, cross, conn, fy, fx, pt(s), pt(g), snapS, snapG, events=events, tag="maze",
-                          style=rng.randrange(3), dtype=dtype))
+                          style=rng.randrange(30), dtype=dtype))
+    return jobs
+
+
+# ---- mazes whose shortest route is long relative to the perimeter (>= 2(H+W) steps, up to ~H*W/2)
+def serpentine(H, W, vertical=False):
+    if vertical:
+        t = serpentine(W, H)
+        return [[t[c][r] for c in range(W)] for r in range(H)]
+    cross = [[1] * W for _ in range(H)]
+    for r in range(1, H, 2):
+        gap = W - 1 if (r // 2) % 2 == 0 else 0
+        for c in range(W):
+            if c != gap:
+                cross[r][c] = 0
+    return cross
+
+
+def spiral(H, W):
+    cross = [[0] * W for _ in range(H)]
+    r, c, d = 0, 0, 0
+    cross[0][0] = 1
+    dirs = [(0, 1), (1, 0), (0, -1), (-1, 0)]
+
+    def free(rr, cc, fr, fc):
+        """(rr, cc) can be carved coming from (fr, fc): inside, not carved, no carved 4-neighbour but (fr, fc)"""
+        if not (0 <= rr < H and 0 <= cc < W) or cross[rr][cc]:
+            return False
+        return all(not (0 <= rr + a < H and 0 <= cc + b < W and cross[rr + a][cc + b]) or (rr + a, cc + b) == (fr, fc)
+                   for a, b in dirs)
+    turns = 0
+    while turns < 2:
+        nr, nc = r + dirs[d][0], c + dirs[d][1]
+        if free(nr, nc, r, c):
+            cross[nr][nc] = 1
+            r, c, turns = nr, nc, 0
+        else:
+            d, turns = (d + 1) % 4, turns + 1
+    return cross
+
+
+def comb(H, W):
+    """spine along the top row, teeth down every other column, every tooth closed at the bottom"""
+    return [[1 if (r == 0 or c % 2 == 0) else 0 for c in range(W)] for r in range(H)]
+
+
+def hop_dist(cross, H, W, conn, s):
+    dist = {s: 0}
+    todo = [s]
+    for (r, c) in todo:
+        for a in (-1, 0, 1):
+            for b in (-1, 0, 1):
+                if (a or b) and (conn == 8 or a == 0 or b == 0):
+                    q = (r + a, c + b)
+                    if 0 <= q[0] < H and 0 <= q[1] < W and cross[q[0]][q[1]] and q not in dist:
+                        dist[q] = dist[(r, c)] + 1
+                        todo.append(q)
+    return dist
+
+
+def long_jobs(rng, shapes, extra=0):
+    """serpentine / spiral / comb corridors, start at the corridor's entrance, goal at the farthest cell
+    (and back), both connectivities; `extra` copies with one random wall opened (a shortcut)"""
+    jobs = []
+    for (H, W) in shapes:
+        for kind in ("serp_h", "serp_v", "spiral", "comb"):
+            base = {"serp_h": lambda: serpentine(H, W), "serp_v": lambda: serpentine(H, W, True),
+                    "spiral": lambda: spiral(H, W), "comb": lambda: comb(H, W)}[kind]()
+            for variant in range(1 + extra):
+                cross = [row[:] for row in base]
+                if variant:
+                    walls = [(r, c) for r in range(H) for c in range(W) if not cross[r][c]]
+                    r, c = rng.choice(walls)
+                    cross[r][c] = 1
+                for conn in (4, 8):
+                    d = hop_dist(cross, H, W, conn, (0, 0))
+                    far = max(d, key=lambda q: (d[q], q))
+                    if kind == "comb":      # bottom of the first tooth -> bottom of the last open tooth
+                        s0, far = (H - 1, 0), (H - 1, (W - 1) // 2 * 2)
+                    else:
+                        s0 = (0, 0)
+                    yax, xax = unit_axis(H, desc=(len(jobs) % 2 == 0)), unit_axis(W, desc=(len(jobs) % 4 >= 2))
+                    a, b = (s0, far) if len(jobs) % 3 else (far, s0)
+                    jobs.append(mkjob(H, W, cross, conn, yax, xax, (centre(yax, a[0]), centre(xax, a[1])),
+                                      (centre(yax, b[0]), centre(xax, b[1])), tag="long:" + kind,
+                                      style=rng.randrange(30)))
     return jobs
 
 
@@ -245,10 +352,11 @@ def coord_jobs(H, W, systems, disps=(0, 3, -3), conn=8, cross=None):
                     for dx in disps:
                         sp = (centre(yax, r) + dy * yax["s"] // 10, centre(xax, c) + dx * xax["s"] // 10)
                         gp = (centre(yax, gr), centre(xax, gc))
-                        jobs.append(mkjob(H, W, cross, conn, yax, xax, sp, gp, tag="coords:" + name))
+                        st = (len(jobs) * 7) % 30
+                        jobs.append(mkjob(H, W, cross, conn, yax, xax, sp, gp, tag="coords:" + name, style=st))
                         if dy == 0 and dx == 0:
                             # the displaced point as goal
-                            jobs.append(mkjob(H, W, cross, conn, yax, xax, gp, sp, tag="coords:" + name))
+                            jobs.append(mkjob(H, W, cross, conn, yax, xax, gp, sp, tag="coords:" + name, style=st))
     return jobs
 
 
@@ -270,13 +378,13 @@ def snap_jobs(shapes):
                         for r in range(H)]
                 pc = (centre(yax, cr), centre(xax, cc))
                 pt = (centre(yax, tr), centre(xax, tc))
-                jobs.append(mkjob(H, W, only, 8, yax, xax, pc, pt, snapS=1, snapG=0, tag="snap_start", style=-1))
-                jobs.append(mkjob(H, W, only, 4, yax, xax, pt, pc, snapS=0, snapG=1, tag="snap_goal", style=-1))
+                jobs.append(mkjob(H, W, only, 8, yax, xax, pc, pt, snapS=1, snapG=0, tag="snap_start", style=-1 - (ci + ti) % 10))
+                jobs.append(mkjob(H, W, only, 4, yax, xax, pt, pc, snapS=0, snapG=1, tag="snap_goal", style=-1 - (ci * 3 + ti) % 10))
                 if more != only:
                     far = max(((r, c) for r in range(H) for c in range(W) if more[r][c]),
                               key=lambda p: (p[0] - tr) ** 2 + (p[1] - tc) ** 2)
                     pf = (centre(yax, far[0]), centre(xax, far[1]))
-                    jobs.append(mkjob(H, W, more, 8, yax, xax, pc, pf, snapS=1, snapG=1, tag="snap_more", style=1))
+                    jobs.append(mkjob(H, W, more, 8, yax, xax, pc, pf, snapS=1, snapG=1, tag="snap_more", style=(ci * 7 + ti) % 30))
     return jobs
 
 
@@ -513,6 +621,10 @@ def run_code(ctx, tally, rng):
                          cross=[[1, 1, 1, 1, 1], [1, 0, 0, 1, 1], [1, 1, 0, 1, 1], [1, 1, 1, 1, 1]])
         cj += coord_jobs(6, 7, COORD_SYSTEMS[:6] + COORD_SYSTEMS[11:14], disps=(0, 3, -3, 4, -4))
     groups.append(("T-coords", cj))
+    # long corridors: the shortest route is >= 2(H+W) steps (serpentine 7x7 under 4-connectivity, 9x9 / 11x6 under both)
+    groups.append(("T-long", long_jobs(rng, ctx.pick([(7, 7), (9, 9), (11, 6)],
+                                                     [(7, 7), (9, 9), (11, 6), (6, 11), (8, 8), (10, 10), (11, 11),
+                                                      (7, 10), (9, 7)]), extra=ctx.pick(0, 3))))
     groups.append(("T-snap", snap_jobs(ctx.pick([(3, 3), (2, 5), (4, 5)],
                                                 [(3, 3), (2, 5), (4, 5), (5, 5), (2, 7), (6, 4)]))))
     process(ctx, tally, groups, "compiled")
